@@ -39,16 +39,8 @@ pub fn enc_reuse<E1: Enc + EncState, E2: Enc + EncState>(
         round += 1;
     }
     let need2_fits = |cap: usize, wc2: usize| wc2 * blocks(sb2) <= cap;
-    if same_rate {
-        e.rst(k2, r2, sb2).unwrap();
-        let v = e.snap().view.unwrap().shards;
-        if need2_fits(v0.data_capacity, v.shard_count) {
-            assert!(v.data_ptr == v0.data_ptr && v.data_capacity == v0.data_capacity, "a non-growing reset reallocated the working space");
-        } else {
-            assert!(v.data_capacity >= v.shard_count * v.shard_len_64);
-        }
-        kcover!(need2_fits(v0.data_capacity, v.shard_count));
-    } else {
+    let _ = same_rate;
+    {
         let e2 = to_other(e, k2, r2, sb2);
         let v = e2.snap().view.unwrap().shards;
         if need2_fits(v0.data_capacity, v.shard_count) {
@@ -59,18 +51,20 @@ pub fn enc_reuse<E1: Enc + EncState, E2: Enc + EncState>(
     }
 }
 
-pub fn high_to_low_enc(e: HighRateEncoder<NullEngine>, k: usize, r: usize, sb: usize) -> LowRateEncoder<NullEngine> {
+pub fn high_to_low_enc<X: reed_solomon_simd::engine::Engine>(e: HighRateEncoder<X>, k: usize, r: usize, sb: usize) -> LowRateEncoder<X> {
     let (eng, work) = e.into_parts();
     LowRateEncoder::new(k, r, sb, eng, Some(work)).unwrap()
 }
-pub fn low_to_high_enc(e: LowRateEncoder<NullEngine>, k: usize, r: usize, sb: usize) -> HighRateEncoder<NullEngine> {
+pub fn low_to_high_enc<X: reed_solomon_simd::engine::Engine>(e: LowRateEncoder<X>, k: usize, r: usize, sb: usize) -> HighRateEncoder<X> {
     let (eng, work) = e.into_parts();
     HighRateEncoder::new(k, r, sb, eng, Some(work)).unwrap()
 }
-pub fn high_id_enc(e: HighRateEncoder<NullEngine>, _k: usize, _r: usize, _sb: usize) -> HighRateEncoder<NullEngine> {
+pub fn high_id_enc<X: reed_solomon_simd::engine::Engine>(mut e: HighRateEncoder<X>, k: usize, r: usize, sb: usize) -> HighRateEncoder<X> {
+    e.reset(k, r, sb).unwrap();
     e
 }
-pub fn low_id_enc(e: LowRateEncoder<NullEngine>, _k: usize, _r: usize, _sb: usize) -> LowRateEncoder<NullEngine> {
+pub fn low_id_enc<X: reed_solomon_simd::engine::Engine>(mut e: LowRateEncoder<X>, k: usize, r: usize, sb: usize) -> LowRateEncoder<X> {
+    e.reset(k, r, sb).unwrap();
     e
 }
 
@@ -98,12 +92,8 @@ pub fn dec_reuse<D1: Dec + DecState, D2: Dec + DecState>(
         assert!(w.received_ptr == w0.received_ptr, "a round reallocated the received bitmap");
         round += 1;
     }
-    let w = if same_rate {
-        d.rst(k2, r2, sb2).unwrap();
-        d.snap().view.unwrap()
-    } else {
-        to_other(d, k2, r2, sb2).snap().view.unwrap()
-    };
+    let _ = same_rate;
+    let w = to_other(d, k2, r2, sb2).snap().view.unwrap();
     if w.shards.shard_count * w.shards.shard_len_64 <= w0.shards.data_capacity {
         assert!(w.shards.data_ptr == w0.shards.data_ptr && w.shards.data_capacity == w0.shards.data_capacity, "a non-growing reset reallocated the working space");
     } else {
@@ -117,17 +107,19 @@ pub fn dec_reuse<D1: Dec + DecState, D2: Dec + DecState>(
     }
 }
 
-pub fn high_to_low_dec(d: HighRateDecoder<NullEngine>, k: usize, r: usize, sb: usize) -> LowRateDecoder<NullEngine> {
+pub fn high_to_low_dec<X: reed_solomon_simd::engine::Engine>(d: HighRateDecoder<X>, k: usize, r: usize, sb: usize) -> LowRateDecoder<X> {
     let (eng, work) = d.into_parts();
     LowRateDecoder::new(k, r, sb, eng, Some(work)).unwrap()
 }
-pub fn low_to_high_dec(d: LowRateDecoder<NullEngine>, k: usize, r: usize, sb: usize) -> HighRateDecoder<NullEngine> {
+pub fn low_to_high_dec<X: reed_solomon_simd::engine::Engine>(d: LowRateDecoder<X>, k: usize, r: usize, sb: usize) -> HighRateDecoder<X> {
     let (eng, work) = d.into_parts();
     HighRateDecoder::new(k, r, sb, eng, Some(work)).unwrap()
 }
-pub fn high_id_dec(d: HighRateDecoder<NullEngine>, _k: usize, _r: usize, _sb: usize) -> HighRateDecoder<NullEngine> {
+pub fn high_id_dec<X: reed_solomon_simd::engine::Engine>(mut d: HighRateDecoder<X>, k: usize, r: usize, sb: usize) -> HighRateDecoder<X> {
+    d.reset(k, r, sb).unwrap();
     d
 }
-pub fn low_id_dec(d: LowRateDecoder<NullEngine>, _k: usize, _r: usize, _sb: usize) -> LowRateDecoder<NullEngine> {
+pub fn low_id_dec<X: reed_solomon_simd::engine::Engine>(mut d: LowRateDecoder<X>, k: usize, r: usize, sb: usize) -> LowRateDecoder<X> {
+    d.reset(k, r, sb).unwrap();
     d
 }
